@@ -88,4 +88,12 @@ PROPS["C19"] = dict(engines=["aloop"], design="5/C19",
     note="Trusted: TLC; loop identity projection (L1/L2 fresh IOLoops, CUR = IOLoop.current(), BG = streamz' shared loop); joins of pipelines already bound to "
          "different loops without an explicit argument are outside the statement (marked dirty and not judged).")
 
+PROPS["C15"] = dict(engines=["atopo"], design="5/C15",
+    technique="TLA+ spec Topology (connect/disconnect/destroy/drop-reference actions over SyncFlow's data-flow step; TLC exhaustive over edit histories) + trace validation of real editing histories (links, liveness via weak references + gc, combiner state, deliveries)",
+    text="TLC checks LinksConsistent, NoDanglingLinks, NoParallelEdges, CombinerShape, SinksStay, ForgottenCollected and the action property "
+         "DeliveriesFollowEdges for all histories of <= 3 edits interleaved with <= 2 emissions on 6 initial graphs; ZipNoCompleteTuple is "
+         "refuted on purpose (known finding F13b); hundreds of random editing histories on the real classes are validated operation by operation.",
+    note="Trusted: TLC; projection through weak references after gc.collect(); only operations the specification's guards allow are driven "
+         "(no parallel edges, no cycles, held nodes only).")
+
 # violations found by an engine shared between properties are attributed by v['property']
